@@ -61,7 +61,7 @@ def operations(keys, vals):
     ops += [("del", k) for k in keys]
     ops += [("get", k) for k in keys]
     ops += [("in", k) for k in keys]
-    ops += [("len",), ("iter",)]
+    ops += [("len",), ("iter",), ("dump",)]
     ops += [("first", k) for k in keys]
     ops += [("last", k) for k in keys]
     ops += [("before", k, r) for k in keys for r in keys]
@@ -71,8 +71,8 @@ def operations(keys, vals):
 
 
 def bounds(tier):
-    return {"keys": "5 (two case-collision pairs + one single key)", "values": 2, "operations": 90,
-            "operation_kinds": ["set", "del", "get", "in", "len", "iter", "first", "last", "before (25 pairs)",
+    return {"keys": "5 (two case-collision pairs + one single key)", "values": 2, "operations": 91,
+            "operation_kinds": ["set", "del", "get", "in", "len", "iter", "dump", "first", "last", "before (25 pairs)",
                                 "after (25 pairs)", "sort", "copy", "reparse"],
             "initial_states": ["empty", "dict-initialised (2 keys)", "parsed from text (3 keys)"],
             "tree_depth": TREE_DEPTH[tier], "graph": "fixpoint of the abstract state space",
@@ -106,6 +106,8 @@ def model_apply(m, op):
             return m, ("ok", m.length())
         elif t == "iter":
             return m, ("ok", m.keys())
+        elif t == "dump":
+            return m, ("ok", m.dump())
         elif t == "first":
             m.order_first(op[1])
         elif t == "last":
@@ -192,6 +194,8 @@ def real_apply(d, op):
             res = len(d)
         elif t == "iter":
             res = list(itertools.islice(iter(d), ITER_BOUND))
+        elif t == "dump":
+            res = d.dump()        # an observation in the middle of a history (a dump cache would be filled here)
         elif t == "first":
             d.order_first(op[1])
         elif t == "last":
@@ -245,7 +249,7 @@ def compare(op, expected, observed, mobs, robs, rerr):
     else:
         if observed[0] == "exc":
             return ("deb822/%s/exception" % name, "no exception", "%s: %s" % observed[1:])
-        if name in ("get", "in", "len", "iter") and observed[1] != expected[1]:
+        if name in ("get", "in", "len", "iter", "dump") and observed[1] != expected[1]:
             return ("deb822/%s/result" % name, expected[1], observed[1])
     if rerr is not None:
         return ("deb822/%s/%s%s" % (name, after_error, rerr[0]), rerr[1], rerr[2])
